@@ -650,6 +650,7 @@ fn main() {
     // file lines by module
     let mut lines: HashMap<String, Vec<String>> = HashMap::new();
     let mut bad_lines: Vec<String> = Vec::new();
+    let mut mangled: HashMap<String, Vec<String>> = HashMap::new();
     let mut names: Vec<_> = std::fs::read_dir(&files_dir).unwrap().map(|e| e.unwrap().path()).collect();
     names.sort();
     for p in names {
@@ -662,7 +663,17 @@ fn main() {
             let mdl = serde_json::from_str::<Value>(line).ok().and_then(|v| v.get("mdl").and_then(|m| m.as_str()).map(|s| s.to_string()));
             match mdl {
                 Some(m) => lines.entry(m).or_default().push(line.to_string()),
-                None => bad_lines.push(line.to_string()),
+                None => {
+                    // not a JSON object: attribute it to its event by the module text if it got that far
+                    let m = line.find("\"mdl\":\"").and_then(|p| {
+                        let rest = &line[p + 7..];
+                        rest.find('"').map(|e| rest[..e].to_string())
+                    });
+                    match m {
+                        Some(m) if m.starts_with("c13::") => mangled.entry(m).or_default().push(line.to_string()),
+                        _ => bad_lines.push(line.to_string()),
+                    }
+                }
             }
         }
     }
@@ -705,7 +716,11 @@ fn main() {
         }
         let panicked = |s: &str| run.panics.iter().any(|(k, _)| k == s);
         // (a) file
-        if !panicked("file") {
+        if let Some(v) = mangled.get(&c.mdl) {
+            let unenc = c.spec["file"]["may_drop"].as_bool() == Some(true);
+            out.push(mis("file line is not valid JSON", format!("file-invalid-json unencodable_key={unenc} ev={ks}"), json!({"line": v[0].chars().take(400).collect::<String>()})));
+            sinks_decided += 1;
+        } else if !panicked("file") {
             match lines.get(&c.mdl).map(|v| v.as_slice()) {
                 Some([line]) => check_file(&tables, c, &run.msg, &run.tpl, line, &mut out),
                 Some(v) => out.push(mis("event written more than once", format!("file-count n={} ev={ks}", v.len()), json!({"n": v.len()}))),
